@@ -47,6 +47,9 @@ NumIdx == {q \in {"integer", "number"} \X MinSet \X BOOLEAN \X MaxSet \X BOOLEAN
 NumLeaf(q) == Ty(q[1]) @@ Opt("minimum", q[2]) @@ OptB("exclMin", q[3]) @@ Opt("maximum", q[4]) @@ OptB("exclMax", q[5])
                  @@ Opt("multipleOf", q[6])
 
+(* the draft-4 default written out: exclusiveMinimum / exclusiveMaximum: false next to the bound *)
+ExclFalseIdx == {q \in {"integer", "number"} \X (MinSet \ {Absent}) \X (MaxSet \cup {Absent}) : TRUE}
+ExclFalseLeaf(q) == Ty(q[1]) @@ [minimum |-> q[2], exclMin |-> FALSE] @@ (IF q[3] = Absent THEN E ELSE [maximum |-> q[3], exclMax |-> FALSE])
 Cls(lo, hi) == <<<<lo, hi>>>>
 At(cls, mn, mx) == [cls |-> cls, neg |-> FALSE, min |-> mn, max |-> mx]
 NAt(cls, mn, mx) == [cls |-> cls, neg |-> TRUE, min |-> mn, max |-> mx]
@@ -67,6 +70,11 @@ Patterns == <<
   Pat(TRUE,  TRUE,  <<At(Cls(97, 97), 0, 1), At(Cls(98, 98), 1, -1), At(Cls(99, 99), 1, 2)>>),  \* 10  ^a?b+c{1,2}$
   Pat(TRUE,  TRUE,  <<At(Cls(65, 90), 1, 1), At(az, 1, 3)>>),             \* 11  ^[A-Z][a-z]{1,3}$
   Pat(FALSE, FALSE, <<At(dg, 1, -1)>>) >>                                 \* 12  [0-9]+
+(* patterns outside the oracle's catalogue (word boundaries, \A..\Z): the match itself is "U", the length keywords next to them are still judged *)
+OPat(src) == [k |-> "opaque", src |-> src]
+PatWordBoth == OPat(<<92, 98, 91, 97, 45, 122, 93, 43, 92, 98>>)        \* \b[a-z]+\b
+PatWordEnd  == OPat(<<94, 91, 48, 45, 57, 93, 43, 92, 98>>)             \* ^[0-9]+\b
+PatAZ       == OPat(<<92, 65, 91, 97, 45, 122, 93, 43, 92, 90>>)        \* \A[a-z]+\Z
 PatIdx == IF Rich THEN 0..12 ELSE {0, 1, 2, 3, 4, 5, 9}          \* 0 = no pattern
 MinLenSet == {Absent, 0, 1, 2}
 MaxLenSet == {Absent, 0, 2, 3}
@@ -140,6 +148,7 @@ D3 == {"3.0", "3.1"}
 RichD(set) == IF Rich THEN set ELSE {"3.0"}
 IsSchemaDesc(x) ==      \* x is a member of the schema family  (disjunction of homogeneous index sets)
   \/ \E d \in AllD, q \in NumIdx : x = D("numeric", d, NumLeaf(q))
+  \/ \E d \in {"2.0", "3.0"}, q \in ExclFalseIdx : x = D("numeric", d, ExclFalseLeaf(q))
   \/ \E d \in RichD(AllD), a \in MinLenSet, b \in MaxLenSet, p \in PatIdx : x = D("string", d, StrLeaf(a, b, p, 0))
   \/ \E d \in RichD(AllD), l \in FmtLens, f \in DOMAIN Formats : x = D("string", d, StrLeaf(l[1], l[2], 0, f))
   \/ \E d \in RichD(AllD), j \in DOMAIN EnumLeaves : x = D("enum", d, EnumLeaves[j])
@@ -171,7 +180,12 @@ ParamLeaves == << Ty("integer") @@ [minimum |-> 0, maximum |-> 3],      \* 1
                   Ty("string") @@ [format |-> "uuid"],                   \* 9
                   Ty("array") @@ [items |-> Ty("integer")],              \* 10
                   Nullable(Ty("integer")),                               \* 11
-                  Ty("string") @@ [pattern |-> Patterns[1], minLength |-> 1, maxLength |-> 2] >>  \* 12
+                  Ty("string") @@ [pattern |-> Patterns[1], minLength |-> 1, maxLength |-> 2],   \* 12
+                  Ty("string") @@ [pattern |-> PatWordBoth, maxLength |-> 5],   \* 13
+                  Ty("string") @@ [pattern |-> PatWordEnd, maxLength |-> 3],    \* 14
+                  Ty("string") @@ [pattern |-> PatAZ, minLength |-> 1, maxLength |-> 3],   \* 15
+                  Ty("integer") @@ [minimum |-> 1, exclMin |-> FALSE, maximum |-> 3, exclMax |-> FALSE],   \* 16  draft-4 default spelled out
+                  S0 @@ [maxLength |-> 3] >>                                    \* 17  no type: nothing presentable as valid in the coverage phase
 P(loc, name, req, si) == [loc |-> loc, name |-> name, required |-> req, schema |-> ParamLeaves[si]]
 nQ1 == <<113, 49>>       \* q1
 nQ2 == <<113, 50>>       \* q2
@@ -189,12 +203,15 @@ BodyPool == << Ty("object") @@ [props |-> [k |-> <<ka, kb>>, v |-> <<Ty("integer
                Ty("object") @@ [addProps |-> Ty("integer")],             \* 7
                S0 @@ [anyOf |-> <<Ty("integer") @@ [minimum |-> 0, maximum |-> 3], Ty("integer") @@ [minimum |-> 2, maximum |-> 5]>>],   \* 8
                Nullable(Ty("string") @@ [minLength |-> 1]),              \* 9
-               Ty("object") @@ [props |-> [k |-> <<ka>>, v |-> <<Ty("string") @@ [format |-> "date"]>>], required |-> <<ka>>] >>   \* 10
+               Ty("object") @@ [props |-> [k |-> <<ka>>, v |-> <<Ty("string") @@ [format |-> "date"]>>], required |-> <<ka>>],   \* 10
+               Ty("string") @@ [pattern |-> PatWordBoth, maxLength |-> 5],    \* 11
+               Ty("number"),                                             \* 12  every integer is a number: type negation must not yield integers
+               Ty("number") @@ [minimum |-> 0] >>                        \* 13
 Bd(media, bi, req) == [media |-> media, schema |-> BodyPool[bi], required |-> req]
 MJson == "application/json"
 MText == "text/plain"
 (* parameter / body sets are written as index tuples: <<>>, <<req, leaf>> or <<req, leaf, leaf2>> (second one optional) *)
-LeafIdx(loc) == IF Rich THEN (IF loc = "query" THEN 1..12 ELSE {1, 2, 3, 4, 5, 6, 9, 12}) ELSE (IF loc = "query" THEN {1, 2, 3, 4, 5, 6, 10, 11} ELSE {1, 2, 5, 6})
+LeafIdx(loc) == IF Rich THEN (IF loc = "query" THEN 1..16 ELSE {1, 2, 3, 4, 5, 6, 9, 12, 13, 14, 15}) ELSE (IF loc = "query" THEN {1, 2, 3, 4, 5, 6, 10, 11, 13, 14} ELSE {1, 2, 5, 6, 13})
 QueryIdx == {<<0, 0, 0>>} \cup {<<r, a, 0>> : r \in {1, 2}, a \in LeafIdx("query")} \cup {<<r, a, b>> : r \in {1, 2}, a \in LeafIdx("query"), b \in {1, 2, 6}}
 PathIdx == {<<0, 0, 0>>} \cup {<<2, a, 0>> : a \in LeafIdx("path")} \cup {<<2, a, b>> : a \in {1, 6}, b \in {2, 5}}
 HeaderIdx == {<<0, 0, 0>>} \cup {<<r, a, 0>> : r \in {1, 2}, a \in LeafIdx("header")} \cup {<<2, a, b>> : a \in {1, 6}, b \in {2, 6}}
@@ -202,7 +219,7 @@ CookieIdx == {<<0, 0, 0>>} \cup {<<r, a, 0>> : r \in {1, 2}, a \in {1, 2, 6}}
 MkParams(loc, n1, n2, x) ==      \* x = <<0 none | 1 optional | 2 required, leaf index, second leaf index or 0>>
   IF x[1] = 0 THEN <<>>
   ELSE <<P(loc, n1, x[1] = 2, x[2])>> \o (IF x[3] = 0 THEN <<>> ELSE <<P(loc, n2, loc = "path", x[3])>>)
-BodyIdxSet == {<<0, 0, 0>>} \cup {<<r, b, 0>> : r \in {1, 2}, b \in (IF Rich THEN 1..10 ELSE {1, 2, 3, 4, 5, 8, 9})}
+BodyIdxSet == {<<0, 0, 0>>} \cup {<<r, b, 0>> : r \in {1, 2}, b \in (IF Rich THEN 1..13 ELSE {1, 2, 3, 4, 5, 8, 9, 11, 12})}
               \cup {<<2, a, b>> : a \in {1, 2, 4}, b \in {3, 4}}
 MkBodies(d, x) == IF x[1] = 0 THEN <<>>
                   ELSE IF x[3] = 0 THEN <<Bd(MJson, x[2], x[1] = 2)>>
@@ -215,6 +232,7 @@ MkOp(g, d, q, p, h, c, b, cf) ==
   Op(g, d, MkParams("path", nId, nKey, p) \o MkParams("query", nQ1, nQ2, q) \o MkParams("header", nH1, nH2, h) \o MkParams("cookie", nC1, nC1, c),
      MkBodies(d, b), cf)
 OpDialects == IF Family = "c03o" THEN (IF Rich THEN AllD ELSE {"3.0", "2.0"}) ELSE (IF Rich THEN AllD ELSE {"3.0"})
+PairLeaves == IF Rich THEN {1, 2, 3, 5, 6, 7, 11, 13, 14} ELSE {1, 2, 6, 13}      \* parameter leaves used in the cross-group pairs
 (* exhaustive inside a location group, pairwise across groups *)
 IsOpDesc(x) ==
   \/ \E d \in OpDialects, q \in QueryIdx : x = MkOp("query", d, q, None3, None3, None3, None3, Cfg0)
@@ -222,22 +240,34 @@ IsOpDesc(x) ==
   \/ \E d \in OpDialects, h \in HeaderIdx \ {None3} : x = MkOp("header", d, None3, None3, h, None3, None3, Cfg0)
   \/ \E d \in OpDialects \cap D3, c \in CookieIdx \ {None3} : x = MkOp("cookie", d, None3, None3, None3, c, None3, Cfg0)
   \/ \E d \in OpDialects, b \in BodyIdxSet \ {None3} : x = MkOp("body", d, None3, None3, None3, None3, b, Cfg0)
-  \/ \E d \in OpDialects, q \in {q \in QueryIdx : q[1] # 0 /\ q[3] = 0}, b \in {b \in BodyIdxSet : b[1] = 2 /\ b[3] = 0} :
+  \/ \E d \in OpDialects, q \in {q \in QueryIdx : q[1] # 0 /\ q[3] = 0 /\ q[2] \in PairLeaves}, b \in {b \in BodyIdxSet : b[1] = 2 /\ b[3] = 0} :
         x = MkOp("query+body", d, q, None3, None3, None3, b, Cfg0)
-  \/ \E d \in OpDialects, p \in {p \in PathIdx : p[1] # 0 /\ p[3] = 0}, h \in {h \in HeaderIdx : h[1] # 0 /\ h[3] = 0} :
+  \/ \E d \in OpDialects, p \in {p \in PathIdx : p[1] # 0 /\ p[3] = 0}, h \in {h \in HeaderIdx : h[1] # 0 /\ h[3] = 0 /\ h[2] \in {1, 2, 6, 13}} :
         x = MkOp("path+header", d, None3, p, h, None3, None3, Cfg0)
   \/ \E d \in OpDialects \cap D3, q \in {q \in QueryIdx : q[1] = 2 /\ q[2] \in {1, 2} /\ q[3] \in {1, 6}}, h \in {h \in HeaderIdx : h[3] # 0}, c \in {c \in CookieIdx : c[1] = 2} :
         x = MkOp("query+header+cookie", d, q, None3, h, c, None3, Cfg0)
+  \/ \E d \in OpDialects \cap D3, h \in {h \in HeaderIdx : h[1] # 0 /\ h[2] \in {1, 6} /\ h[3] = 0}, c \in CookieIdx \ {None3} :      \* locations of different negatability
+        x = MkOp("header+cookie", d, None3, None3, h, c, None3, Cfg0)
   \/ Family # "c03o" /\ \E a \in {2, 6}, cf \in Cfgs : x = MkOp("config", "3.0", <<2, a, 0>>, None3, <<2, a, 0>>, None3, <<2, 1, 0>>, cf)
+
+(* Histories (C03): the coverage cases of operation A, then of operation B, generated in ONE process (labels are objects that *)
+(* live across operations); every ordered pair over a small pool, incl. an operation whose second query parameter has no   *)
+(* value presentable as valid (ParamLeaves[17]) after one that has.                                                       *)
+HistPool == << MkOp("history", "3.0", <<2, 1, 17>>, None3, None3, None3, None3, Cfg0),          \* q1 integer 0..3, q2 {maxLength: 3}
+               MkOp("history", "3.0", <<2, 2, 0>>, None3, <<2, 1, 0>>, None3, <<2, 1, 0>>, Cfg0),   \* q1 string, X-H1 integer, body object
+               MkOp("history", "3.0", <<1, 1, 6>>, <<2, 1, 0>>, None3, <<2, 2, 0>>, None3, Cfg0),   \* path id, q1, q2, cookie
+               MkOp("history", "2.0", <<2, 3, 0>>, None3, <<1, 6, 0>>, None3, <<2, 2, 0>>, Cfg0) >> \* 2.0: q1 boolean, X-H1 string, body integer
+IsHistDesc(x) == \E a \in DOMAIN HistPool, b \in DOMAIN HistPool :
+                   x = [kind |-> "history", group |-> "history", dialect |-> "3.0", ops |-> <<HistPool[a], HistPool[b]>>]
 
 (* ------------------------------------------------------------------------- *)
 (* The machine                                                               *)
 (* ------------------------------------------------------------------------- *)
 VARIABLES desc, outcome
 vars == <<desc, outcome>>
-Init == outcome = "new" /\ (IF Family = "c03s" THEN IsSchemaDesc(desc) ELSE IsOpDesc(desc))
+Init == outcome = "new" /\ (IF Family = "c03s" THEN IsSchemaDesc(desc) ELSE IF Family = "c03h" THEN IsHistDesc(desc) ELSE IsOpDesc(desc))
 CoverValue   == outcome = "new" /\ desc.kind = "schema" /\ outcome' = "values" /\ UNCHANGED desc
-CoverCase    == outcome = "new" /\ desc.kind = "op" /\ Family = "c03o" /\ outcome' = "cases" /\ UNCHANGED desc
+CoverCase    == outcome = "new" /\ desc.kind \in {"op", "history"} /\ Family \in {"c03o", "c03h"} /\ outcome' = "cases" /\ UNCHANGED desc
 DrawPositive == outcome \in {"new", "cases"} /\ desc.kind = "op" /\ Family = "c01" /\ outcome' = "cases" /\ UNCHANGED desc
 DrawNegative == outcome \in {"new", "cases"} /\ desc.kind = "op" /\ Family = "c02" /\ outcome' = "cases" /\ UNCHANGED desc
 Skip         == outcome = "new" /\ desc.kind = "op" /\ Family = "c02" /\ outcome' = "skipped" /\ UNCHANGED desc
@@ -403,7 +433,7 @@ C02_Outcome(op, outcome_, modesNegOnly) ==
 (* ------------------------------------------------------------------------- *)
 (* Design-level checks of the specification itself (TLC, every descriptor)   *)
 (* ------------------------------------------------------------------------- *)
-TypeOK == /\ desc.kind \in {"schema", "op"} /\ desc.dialect \in AllD
+TypeOK == /\ desc.kind \in {"schema", "op", "history"} /\ desc.dialect \in AllD
           /\ outcome \in {"new", "values", "cases", "skipped", "unsat"}
           /\ (desc.kind = "op" => \A i \in DOMAIN desc.params : desc.params[i].loc \in Locations)
 (* the family stays inside the oracle's fragment: no probe value is judged "U" for a family schema without a pattern subtlety *)
